@@ -19,13 +19,16 @@ vars == <<l, M>>
 
 Drift(a, what) == PrintT(<<"DRIFT", l, a, what>>)
 DriftDetail(a, what, detail) == PrintT(<<"DRIFT", l, a, what>>) /\ PrintT(<<"DRIFT-DETAIL", l, a, ToJson(detail)>>)
-Off == [on |-> FALSE]
+Off == [on |-> FALSE, ro |-> FALSE]
+\* a read-only session: not modelled step by step, but the documented panics of the unsafe mutable accessors are
+OffRo == [on |-> FALSE, ro |-> TRUE]
+RoVariant(op) == op.variant \in {"map", "map_copy_ro"}
 
 Applies(op, i) == ~Has(op, "only") \/ \E k \in 1..Len(op.only) : op.only[k] = i
 
 InitModel(c, d) ==
   IF d.ok
-  THEN [on |-> TRUE,
+  THEN [on |-> TRUE, ro |-> FALSE,
         st |-> New(IF Has(c, "kind") THEN c.kind ELSE "opt", d.backend, Has(c, "unify") /\ c.unify,
                    IF Has(c, "reserved") THEN c.reserved ELSE 0, c.cap, c.minseg)]
   ELSE Off
@@ -51,7 +54,13 @@ Diff(r, st2, x) ==
   ELSE "none"
 
 NextModel(a, op, x, m) ==
-  IF ~m.on THEN m
+  IF ~m.on THEN
+       (IF x.res.k \in {"dead", "noarena", "panic"} THEN Off
+        ELSE IF op.k = "reopen" THEN (IF x.res.k = "ok" /\ RoVariant(op) THEN OffRo ELSE Off)
+        \* get_bytes_mut / get_pointer_mut / get_aligned_pointer_mut: "If the allocator is read-only, then this method will panic"
+        ELSE IF m.ro /\ op.k = "rawmut" /\ x.res.k # "refused"
+             THEN (IF Drift(a, "mutable-accessor-did-not-panic-on-read-only") THEN m ELSE m)
+        ELSE m)
   ELSE IF x.res.k \in {"skip", "notapplied"} THEN m
   ELSE IF x.res.k \in {"dead", "noarena"} THEN Off
   ELSE IF x.res.k = "panic" THEN (IF Drift(a, "panic") THEN Off ELSE Off)
@@ -61,7 +70,8 @@ NextModel(a, op, x, m) ==
                                      !.leaked = m.st.leaked \cup {AsLeak(m.st.live[h]) : h \in DOMAIN m.st.live}]]
   \* the implementation-level model covers shared writable sessions; private / read-only sessions are judged at the
   \* property level only (TraceSeqProp)
-  ELSE IF op.k = "reopen" /\ (op.variant # "map_mut" \/ x.res.k # "ok") THEN Off
+  ELSE IF op.k = "reopen" /\ (op.variant # "map_mut" \/ x.res.k # "ok") THEN (IF x.res.k = "ok" /\ RoVariant(op) THEN OffRo ELSE Off)
+  ELSE IF op.k = "rawmut" THEN (IF x.res.k # "ok" /\ Drift(a, "mutable-accessor-refused-on-writable") THEN m ELSE m)
   ELSE IF ~Enabled(m.st, op) THEN (IF Drift(a, "handle-unknown-to-model") THEN Off ELSE Off)
   ELSE
   LET r == Step(m.st, op, FixedRewind)
